@@ -36,6 +36,7 @@ import (
 	"unicode"
 	"unicode/utf8"
 
+	seccomp "github.com/elastic/go-seccomp-bpf"
 	"github.com/elastic/go-seccomp-bpf/arch"
 	"verif/harness/internal/vd"
 )
@@ -292,6 +293,24 @@ func tablesStream(r *runner, rng *rand.Rand) error {
 		return err
 	}
 	r.sum.Extra = map[string]interface{}{}
+	// A history of ordinary use comes first: compilations that name syscalls in other spellings (refused, but a
+	// lookup fallback may remember them) and odd-case architecture lookups must leave the package's tables as they are.
+	for _, an := range []string{"x86_64", "i386", "arm", "aarch64", "x32"} {
+		tn := vd.TableNames(an)
+		for k := 0; k < 5 && len(tn) > 0; k++ {
+			n := tn[rng.Intn(len(tn))]
+			for _, sp := range []string{strings.ToUpper(n), strings.ToUpper(n[:1]) + n[1:], " " + n, n + " ", n + "\n"} {
+				gp := seccomp.Policy{DefaultAction: seccomp.ActionAllow, Syscalls: []seccomp.SyscallGroup{
+					{Action: seccomp.ActionErrno, Names: []string{sp}},
+					{Action: seccomp.ActionErrno, NamesWithCondtions: []seccomp.NameWithConditions{{Name: sp, Conditions: []seccomp.Condition{{Argument: 0, Operation: seccomp.Equal, Value: 1}}}}}}}
+				func() {
+					defer func() { _ = recover() }()
+					vd.CompileGo(&gp, an, "le")
+				}()
+			}
+		}
+		r.tag("history:compilations-with-other-spellings-before-the-tables-are-read")
+	}
 	rowByVar := map[string]*tRow{}
 	for i := range f.ArchRows {
 		rowByVar[f.ArchRows[i].Var] = &f.ArchRows[i]
@@ -491,7 +510,20 @@ func tablesStream(r *runner, rng *rand.Rand) error {
 			tmismatch(r, Mismatch{Case: "size", Request: req, Go: fmt.Sprintf("len(SyscallNumbers)=%d", len(info.SyscallNumbers)), Model: fmt.Sprintf("%d entries in the literal", len(tab)), Note: "compiled table and regenerated table differ in size"})
 		}
 		if len(info.SyscallNames) != len(byName) {
-			tmismatch(r, Mismatch{Case: "size", Request: req, Go: fmt.Sprintf("len(SyscallNames)=%d", len(info.SyscallNames)), Model: fmt.Sprintf("%d distinct names", len(byName)), Note: "inverted map has a different number of names"})
+			m := Mismatch{Case: "size", Request: req, Go: fmt.Sprintf("len(SyscallNames)=%d", len(info.SyscallNames)), Model: fmt.Sprintf("%d distinct names", len(byName)), Note: "inverted map has a different number of names"}
+			var extra []string
+			for name, nr := range info.SyscallNames {
+				if _, ok := byName[name]; !ok {
+					extra = append(extra, fmt.Sprintf("%q→%d", name, nr))
+				}
+			}
+			sort.Strings(extra)
+			if len(extra) > 0 {
+				m.Key = "extra-names:" + row.Var
+				m.FailingInput = fmt.Sprintf("arch.%s.SyscallNames holds %d name(s) that no row of the table has (%s), after compilations that named syscalls in upper case or with blanks: name→number and number→name are no longer inverses",
+					row.Var, len(extra), strings.Join(extra[:minInt(len(extra), 6)], ", "))
+			}
+			tmismatch(r, m)
 		}
 		for _, e := range tab {
 			entries++
